@@ -375,6 +375,7 @@ class C02(Property):
         ("antismash/common/hmm_rule_parser/structures.py", "Multipliers"),
         ("antismash/detection/hmm_detection/__init__.py", "_get_rule_files_for_strictness"),
         ("antismash/detection/hmm_detection/__init__.py", "get_ruleset"),
+        ("antismash/detection/hmm_detection/__init__.py", "_get_rules"),
         ("antismash/detection/hmm_detection/__init__.py", "_STRICTNESS_LEVELS"),
         ("antismash/common/hmm_rule_parser/cluster_prediction.py", "Ruleset.__post_init__"),
         ("antismash/common/hmm_rule_parser/cluster_prediction.py", "Ruleset.copy_with_replacements"),
@@ -591,6 +592,8 @@ class C02(Property):
         for level in ("strict", "relaxed", "loose"):
             yield {"kind": "parse", "shipped": level, "via": "create", "cmul": [1, 1], "nmul": [1, 1]}
         yield {"kind": "parse", "shipped": "loose", "via": "create", "cmul": [3, 2], "nmul": [1, 2]}
+        yield {"kind": "parse", "shipped": rng.choice(["strict", "relaxed", "loose"]), "via": "get_rules",
+               "cmul": [1, 1], "nmul": [1, 1]}
         n_well = 2500 if deep else 450
         for i in range(n_well):
             case, _ = self.wellformed(rng)
@@ -675,8 +678,12 @@ class C02(Property):
             if "shipped" in case:
                 from antismash.detection import hmm_detection as hd
                 sigs, cats = self._shipped()
-                paths = hd._get_rule_files_for_strictness(case["shipped"])  # pylint: disable=protected-access
-                rules = create_rules(paths, set(sigs), set(cats), mult)
+                if case.get("via") == "get_rules":
+                    # the module's own chaining of Parser instances (used to validate --limit-to-rule-names)
+                    rules = hd._get_rules(case["shipped"])  # pylint: disable=protected-access
+                else:
+                    paths = hd._get_rule_files_for_strictness(case["shipped"])  # pylint: disable=protected-access
+                    rules = create_rules(paths, set(sigs), set(cats), mult)
             else:
                 sigs, cats = case["sigs"], case["cats"]
                 if case.get("via") == "parser" and len(case["files"]) == 1:
@@ -916,7 +923,7 @@ class C02(Property):
     def key(self, case: Dict[str, Any]) -> str:
         import hashlib
         import json
-        c = {k: case.get(k) for k in ("kind", "files", "text", "shipped", "cmul", "nmul", "steps", "strictness")}
+        c = {k: case.get(k) for k in ("kind", "files", "text", "shipped", "cmul", "nmul", "steps", "strictness", "via")}
         return hashlib.md5(json.dumps(c, sort_keys=True).encode()).hexdigest()
 
     # ------------------------------------------------------------------ shrinking
